@@ -1283,3 +1283,7 @@ mod tests {
         assert_eq!(result, None);
     }
 }
+
+#[cfg(kani)]
+#[path = "/verif/kani/arrow-cast/cast/decimal.rs"]
+mod verif_kani;
